@@ -88,6 +88,7 @@ func LoadFuncs(u *sch.Universe) ([]*Func, error) {
 type World struct {
 	App     *tars.VerifApp
 	Servant *Servant
+	Plain   *PlainServant // non-nil when the servant is registered without context
 	Server  *transport.TarsServer
 	Conf    *transport.TarsServerConf
 	Proto   *tars.Protocol
@@ -100,8 +101,19 @@ type World struct {
 // generated proxy to it.  tap, when non-nil, is an address the client should dial instead of the
 // server (a forwarder in between).
 func NewWorld(app *tars.VerifApp, conf *transport.TarsServerConf, obj string, clientAddr func(serverAddr string) string) (*World, error) {
+	return NewWorldOpt(app, conf, obj, clientAddr, false)
+}
+
+// NewWorldOpt is NewWorld; with plain the servant is registered through the context-less servant
+// interface (w.Plain announces the token of the single call in flight).
+func NewWorldOpt(app *tars.VerifApp, conf *transport.TarsServerConf, obj string, clientAddr func(serverAddr string) string, plain bool) (*World, error) {
 	w := &World{App: app, Servant: NewServant(), Conf: conf, Obj: obj}
-	w.Proto = app.NewProtocol(new(VI.Echo), w.Servant, true)
+	if plain {
+		w.Plain = &PlainServant{S: w.Servant}
+		w.Proto = app.NewProtocol(new(VI.Echo), w.Plain, false)
+	} else {
+		w.Proto = app.NewProtocol(new(VI.Echo), w.Servant, true)
+	}
 	srv, err := netlab.StartServer(w.Proto, conf)
 	if err != nil {
 		return nil, err
